@@ -1,7 +1,5 @@
 (* C08 - abbreviated and unaccented tokens are accepted by one exact rule, and only by it. *)
 From PS Require Import Base LangDefs SpecDefs LangProofs LangData.
-From PS Require Import CTieLang.
-From PS.Gen Require CFuns.
 From PS.Gen Require Import Langs.
 
 (* the rule: with ' = "drop every byte >= 0x80" in Spanish and French and identity elsewhere,
